@@ -58,6 +58,16 @@ func (v valueSpec) render() string {
 	case "big":
 		sizes := []int{999, 1000, 1001, 2500}
 		return fmt.Sprintf("(\"head\", list(range(%d)) + [%d], \"tail\")", sizes[((n%4)+4)%4], n)
+	case "sizes":
+		sizes := []int{0, 1, 2, 3, 4, 999, 1000, 1001, 2500}
+		k := sizes[((n%9)+9)%9]
+		return fmt.Sprintf("[list(range(%d)), {\"d\": {i: str(i) for i in range(%d)}}, (set(range(%d)), %d)]", k, k, k, n)
+	case "bigdict":
+		sizes := []int{1000, 1001, 2001}
+		return fmt.Sprintf("[%d, {i: i for i in range(%d)}, \"after\"]", n, sizes[((n%3)+3)%3])
+	case "bigset":
+		sizes := []int{1000, 1001, 2001}
+		return fmt.Sprintf("(\"before\", set(range(%d)), %d)", sizes[((n%3)+3)%3], n)
 	case "strlen":
 		sizes := []int{254, 255, 256, 257}
 		return fmt.Sprintf("(\"y\" * %d) + \"%d\"", sizes[((n%4)+4)%4], n)
@@ -85,6 +95,7 @@ type helperSpec struct {
 	Lit   valueSpec `json:"lit"`             // a literal in its code
 	Calls string    `json:"calls,omitempty"` // another helper (same module, or loaded: "lib1.f0")
 	Rec   bool      `json:"recursive,omitempty"`
+	Mut   string    `json:"mutual,omitempty"` // another helper called in the n > 0 branch (mutual recursion)
 }
 
 type moduleSpec struct {
@@ -147,6 +158,8 @@ type pkgSpec struct {
 	Extra    int          `json:"extra_globals,omitempty"` // unrelated globals inserted at the top (a don't-care edit)
 	Predecl  bool         `json:"predeclared_globals,omitempty"`
 	LoadsBld []string     `json:"loads_build,omitempty"` // other packages' BUILD.dawn loaded (C06)
+	LoadsMod []int        `json:"loads_mod,omitempty"`   // helper modules loaded explicitly (C06)
+	Yields   int          `json:"yields,omitempty"`
 }
 
 type projSpec struct {
@@ -231,6 +244,9 @@ func (m *moduleSpec) render(p *projSpec) string {
 		if f.Rec {
 			fmt.Fprintf(&sb, "    if n > 0:\n        return %s(n - 1)\n", f.Name)
 		}
+		if f.Mut != "" {
+			fmt.Fprintf(&sb, "    if n > 1:\n        return %s(n - 1)\n", f.Mut)
+		}
 		fmt.Fprintf(&sb, "    return (%s,)\n", strings.Join(parts, ", "))
 	}
 	return sb.String()
@@ -276,14 +292,27 @@ func (p *projSpec) renderBuild(pk *pkgSpec) string {
 		sort.Strings(syms)
 		fmt.Fprintf(&sb, "load(%q, %s)\n", p.Modules[mi].label(), strings.Join(quoteAll(syms), ", "))
 	}
-	for _, l := range pk.LoadsBld {
-		fmt.Fprintf(&sb, "load(%q, \"_unused\")\n", l)
+	for i, l := range pk.LoadsBld {
+		fmt.Fprintf(&sb, "load(%q, mark_%d = \"MARK\")\n", l, i)
 	}
+	for _, mi := range pk.LoadsMod {
+		if used[mi] == nil && mi < len(p.Modules) && len(p.Modules[mi].Consts) > 0 {
+			fmt.Fprintf(&sb, "load(%q, %q)\n", p.Modules[mi].label(), p.Modules[mi].Consts[0].Name)
+		}
+	}
+	for i := 0; i < pk.Yields; i++ {
+		sb.WriteString("sim_yield()\n")
+	}
+	fmt.Fprintf(&sb, "MARK = %q\n", pk.Path)
 	sb.WriteString(strings.Repeat("\n", pk.Blank))
 	for i := 0; i < pk.Extra; i++ {
 		fmt.Fprintf(&sb, "EXTRA_%d = %d\n", i, i)
 	}
 	for _, g := range pk.Globals {
+		if g.Val.Kind == "cyclic" {
+			fmt.Fprintf(&sb, "%s = [%d]\n%s.append(%s)\n", g.Name, g.Val.V, g.Name, g.Name)
+			continue
+		}
 		fmt.Fprintf(&sb, "%s = %s\n", g.Name, g.Val.render())
 	}
 	if pk.Flag != "" {
@@ -342,6 +371,7 @@ func (p *projSpec) renderTarget(t *targetSpec) string {
 	if self {
 		params = append(params, "self")
 	}
+	varargs := t.Form == "varargs"
 	var free *refSpec
 	for i := range t.Refs {
 		r := &t.Refs[i]
@@ -361,6 +391,11 @@ func (p *projSpec) renderTarget(t *targetSpec) string {
 		case "nested":
 			pre = append(pre, fmt.Sprintf("    %s_f = lambda: [x for x in [%s]]", r.Name, r.Name))
 			args = append(args, r.Name+"_f()")
+		case "deep":
+			pre = append(pre, fmt.Sprintf("    def %s_a():\n        def %s_b():\n            def %s_c():\n                return %s\n            return %s_c()\n        return %s_b()", r.Name, r.Name, r.Name, r.Name, r.Name, r.Name))
+			args = append(args, r.Name+"_a()")
+		case "selfref":
+			args = append(args, t.Name+".label")
 		case "flag":
 			args = append(args, "FLAG_"+r.Name)
 		case "target":
@@ -374,10 +409,18 @@ func (p *projSpec) renderTarget(t *targetSpec) string {
 		fmt.Fprintf(&b, "%s\"\"\"doc of %s v%d\"\"\"\n", indent, t.Name, t.DocV)
 		fmt.Fprintf(&b, "%s# comment v%d\n", indent, t.CommentV)
 		for _, l := range pre {
-			b.WriteString(strings.Replace(l, "    ", indent, 1) + "\n")
+			for _, ll := range strings.Split(l, "\n") {
+				b.WriteString(indent + strings.TrimPrefix(ll, "    ") + "\n")
+			}
 		}
 		fmt.Fprintf(&b, "%ssim_body(%s)\n", indent, strings.Join(args, ", "))
 		return b.String()
+	}
+	if varargs {
+		if !self {
+			params = append([]string{"self"}, params...)
+		}
+		params = append(params, "*args", "**kwargs")
 	}
 	form := t.Form
 	if free != nil {
